@@ -571,7 +571,7 @@ def adversarial_cases(ctx, stats, thorough):
                                             for i in range(10 ** 4 if thorough else 2000)),
         note="10^4 definitions in the thorough tier (300 kB, beyond `modest size`)")
     for name, fn in FLAT_SHAPES.items():
-        for n in ((60, 120) if not thorough else (60, 120, 250, 500, 1000)):
+        for n in ((60, 120) if not thorough else (60, 120, 250, 500)):
             add("flat:%s-%d" % (name, n), fn(n))
     add("params-1000", "template T(%s) { }\ncomponent main = T(%s);\n" % (", ".join("p%d" % i for i in range(1000)),
                                                                               ", ".join("1" for _ in range(1000))))
